@@ -22,16 +22,22 @@ RULE = ("catalogue (every concurrency setting -5..1000 x list lengths 1..5; ever
         "(run alone on one processor with Exec called synchronously: the context has already ended, or the first upstream "
         "reached answers NOERROR at once, so Exec returns before some helper goroutines have started; the driver then packs "
         "six other queries of the same size through pool.PackBuffer, recycling the released query buffer, and only then "
-        "lets the late helpers reach their upstreams; concurrency 1,2,3,9 x lists of 1,2,4); in every case the bytes each "
+        "lets the late helpers reach their upstreams; concurrency 1,2,3,9 x lists of 1,2,4) + query sizes: "
+        "queries padded (EDNS0 padding in qCtx.QOpt()) to exactly 4096, 8189..8193 (pool.PackBuffer's 8191 byte scratch "
+        "buffer holds a message of at most 8190 bytes, larger ones are packed into a fresh slice), 9000, 16383, 16384, "
+        "20000, 32768, 65534 and 65535 bytes on the wire, in the catalogue at concurrency 1, 3 and through a tag subset, "
+        "in 1/25 of the random scripts and 1/6 of the late-helper cases; in every case the bytes each "
         "upstream call received are compared with this call's packed query and must sit in a buffer of their own; "
         "a case is non-trivial "
         "when at least two upstreams are queried and a bad outcome arrives before a good one or the context is cancelled "
-        "among the events, or when the selection wraps around a list shorter than the concurrency; distinct = distinct Gallina literal")
+        "among the events, or when the selection wraps around a list shorter than the concurrency, or when the packed query is longer "
+        "than 8190 bytes; distinct = distinct Gallina literal")
 ASSUMPTIONS = [
     "Go channel semantics: an unbuffered send completes only when received; close(done) releases every select on it; "
     "a deferred cancel() runs when the worker goroutine ends (this is how the driver orders arrivals)",
     "an upstream honours the context it is given (then 'exchange still running' always ends within the 5 s deadline "
     "that the driver reads from that context)",
+    "the reference bytes of a query are miekg/dns Msg.Pack() of qCtx.Q(), taken by the driver without the byte pool",
     "miekg/dns Unpack decides parsable / unparsable; rcodes 0 and 3 are dns.RcodeSuccess / dns.RcodeNameError",
     "math/rand/v2 IntN(n) returns a value in [0, n); its distribution is not claimed",
     "late-helper cases rely on the Go scheduler only to PRODUCE the schedule (one P: goroutines started by Exec do not "
